@@ -1864,6 +1864,32 @@ class LazyFilter(IterV):
         self.done = True
 
 
+def _b_vars(it, args, kw):
+    v = args[0] if args else None
+    if isinstance(v, ClassV):
+        out = {}
+        for b in v.node.body:
+            if isinstance(b, ast.Assign):
+                for t in b.targets:
+                    if isinstance(t, ast.Name):
+                        out[t.id] = it.eval(b.value, Frame(v.mod, {}))
+            elif isinstance(b, ast.FunctionDef):
+                out[b.name] = FuncV(b, v.mod, cls=v.node, qual=f"{v.node.name}.{b.name}")
+        return out
+    if isinstance(v, Obj):
+        return v.attrs
+    return Unknown("vars")
+
+
+def _b_callable(it, args, kw):
+    v = args[0]
+    if isinstance(v, (FuncV, BoundBuiltin, ClassV)):
+        return True
+    if isinstance(v, (str, bool, list, tuple, dict)) or v is None or is_num(v):
+        return False
+    return it.decide(f"callable({it._show(v)})")
+
+
 def _b_filter(it, args, kw):
     f, xs = args
     if isinstance(xs, list):
@@ -1938,7 +1964,7 @@ BUILTINS: Dict[str, Any] = {k: BoundBuiltin(v) for k, v in {
     "range": _b_range, "enumerate": _b_enumerate, "zip": _b_zip, "int": _b_int, "float": _b_float,
     "round": _b_round, "bool": _b_bool, "isinstance": _b_isinstance, "sum": _b_sum, "any": _b_any,
     "all": _b_all, "list": _b_list, "tuple": _b_tuple, "dict": _b_dict, "set": _b_set, "str": _b_str, "format": _b_format,
-    "type": _b_type, "filter": _b_filter, "reversed": _b_reversed, "print": _b_print,
+    "type": _b_type, "vars": _b_vars, "callable": _b_callable, "filter": _b_filter, "reversed": _b_reversed, "print": _b_print,
     "getattr": _b_getattr, "setattr": _b_setattr, "hasattr": _b_hasattr, "ord": _b_ord, "chr": _b_chr,
 }.items()}
 for _n in ("Exception", "ValueError", "TypeError", "IndexError", "KeyError", "NotImplementedError",
